@@ -1159,7 +1159,8 @@ def worker(args) -> Result:
             res.count(f"session-aborted:{type(e).__name__}")
             res.notes.append(f"session aborted: {type(e).__name__}: {str(e)[:200]}")
             continue
-        res.count(f"cfg:{spec['cfg']}{spec.get('ndim', 3) - 1}d" + ("" if spec.get("with_ids", True) else ":assign"))
+        res.count(f"cfg:{spec['cfg']}{spec.get('ndim', 3) - 1}d" + ("" if spec.get("with_ids", True) else ":assign")
+                  + (":prebuilt-featuredict" if spec.get("prebuilt") else ""))
         res.count("nodes:" + str(len(spec["nodes"])))
         for f in fails:
             if f.signature not in oracle_sigs:
